@@ -879,3 +879,215 @@ Proof.
   rewrite (attime_relative_lemma now s ref sg ts Hc Hsg Hp Hm Hok Hnp). f_equal. f_equal.
   rewrite wrap64_id; [ring|]. unfold sign_val. destruct (N.eqb sg 45); unfold two63 in *; lia.
 Qed.
+
+(* ------------------------------------------------------------------------------------------------ *)
+(* durations with fractions: the copy and the standard parser with the admitted magnitude lowered to MaxInt64 are the
+   same function (as long as the copy's float -> int64 conversion is in range) *)
+
+Definition is_suffix (t s : bytes) : Prop := exists pre, s = pre ++ t.
+
+Lemma is_suffix_refl : forall s, is_suffix s s.
+Proof. intros s. exists []. reflexivity. Qed.
+
+Lemma is_suffix_cons : forall c t s, is_suffix t s -> is_suffix t (c :: s).
+Proof. intros c t s [pre ->]. exists (c :: pre). reflexivity. Qed.
+
+Lemma is_suffix_trans : forall a b c, is_suffix a b -> is_suffix b c -> is_suffix a c.
+Proof. intros a b c [p ->] [q ->]. exists (q ++ p). rewrite app_assoc. reflexivity. Qed.
+
+Lemma no_dMy_suffix : forall t s, is_suffix t s -> no_dMy s -> no_dMy t.
+Proof. intros t s [pre ->] H. apply no_dMy_app_inv in H as [_ H]. exact H. Qed.
+
+Lemma wrap_check_eq : forall x c, 0 <= x <= 922337203685477580 -> is_digit c = true ->
+  let y := x * 10 + Z.of_N c - 48 in
+  (wrap64 y <? 0) = (max_int64 <? wrapu64 y) /\ (wrap64 y <? 0 = false -> wrap64 y = y /\ wrapu64 y = y /\ 0 <= y <= max_int64).
+Proof.
+  intros x c Hx Hc y. pose proof (is_digit_val c Hc) as Hv. unfold digit_val in Hv.
+  assert (Hy : 0 <= y < two64) by (unfold y, two64; lia).
+  assert (Hu : wrapu64 y = y) by (unfold wrapu64; apply Z.mod_small; exact Hy).
+  rewrite Hu. destruct (Z.ltb_spec max_int64 y) as [Hgt|Hle].
+  - rewrite wrap64_big_neg by lia. split; [reflexivity|discriminate].
+  - rewrite wrap64_id by (unfold two63, max_int64 in *; lia). split; [lia|]. intros _. unfold max_int64 in *. lia.
+Qed.
+
+Lemma leading_int_same : forall s x, 0 <= x <= max_int64 -> pyro_leading_int s x = std_leading_int_b max_int64 s x.
+Proof.
+  induction s as [|c s IH]; intros x Hx; [reflexivity|]. cbn [pyro_leading_int std_leading_int_b].
+  destruct (is_digit c) eqn:Hc; [|reflexivity].
+  change (max_int64 / 10) with 922337203685477580.
+  destruct (Z.ltb_spec 922337203685477580 x) as [Hbig|Hsmall]; [reflexivity|].
+  destruct (wrap_check_eq x c ltac:(lia) Hc) as [Heq Hok]. cbv zeta in Heq, Hok. rewrite <- Heq.
+  destruct (wrap64 (x * 10 + Z.of_N c - 48) <? 0) eqn:E; [reflexivity|].
+  destruct (Hok eq_refl) as (H1 & H2 & H3). rewrite H1, H2. apply IH. exact H3.
+Qed.
+
+Lemma leading_int_suffix : forall s x v s1, 0 <= x <= max_int64 -> pyro_leading_int s x = Some (v, s1) ->
+  is_suffix s1 s /\ 0 <= v <= max_int64.
+Proof.
+  induction s as [|c s IH]; intros x v s1 Hx H; cbn [pyro_leading_int] in H.
+  - inversion H; subst. split; [apply is_suffix_refl|exact Hx].
+  - destruct (is_digit c) eqn:Hc.
+    + change (max_int64 / 10) with 922337203685477580 in H.
+      destruct (Z.ltb_spec 922337203685477580 x) as [Hbig|Hsmall]; [discriminate|].
+      destruct (wrap_check_eq x c ltac:(lia) Hc) as [_ Hok]. cbv zeta in Hok.
+      destruct (wrap64 (x * 10 + Z.of_N c - 48) <? 0) eqn:E; [discriminate|].
+      destruct (Hok eq_refl) as (H1 & _ & H3). rewrite H1 in H.
+      destruct (IH _ _ _ H3 H) as [Hs Hv]. split; [apply is_suffix_cons, Hs|exact Hv].
+    + inversion H; subst. split; [apply is_suffix_refl|exact Hx].
+Qed.
+
+Lemma leading_fraction_same : forall s x sc ov, 0 <= x <= max_int64 ->
+  pyro_leading_fraction s x sc ov = std_leading_fraction_b max_int64 s x sc ov.
+Proof.
+  induction s as [|c s IH]; intros x sc ov Hx; [reflexivity|]. cbn [pyro_leading_fraction std_leading_fraction_b].
+  destruct (is_digit c) eqn:Hc; [|reflexivity].
+  destruct ov; [apply IH, Hx|].
+  change (max_int64 / 10) with 922337203685477580.
+  destruct (Z.ltb_spec 922337203685477580 x) as [Hbig|Hsmall]; [apply IH, Hx|].
+  destruct (wrap_check_eq x c ltac:(lia) Hc) as [Heq Hok]. cbv zeta in Heq, Hok. rewrite <- Heq.
+  destruct (wrap64 (x * 10 + Z.of_N c - 48) <? 0) eqn:E; [apply IH, Hx|].
+  destruct (Hok eq_refl) as (H1 & H2 & H3). rewrite H1, H2. apply IH. exact H3.
+Qed.
+
+Lemma leading_fraction_suffix : forall s x sc ov f sc' s2, 0 <= x <= max_int64 ->
+  pyro_leading_fraction s x sc ov = (f, sc', s2) -> is_suffix s2 s /\ 0 <= f <= max_int64.
+Proof.
+  induction s as [|c s IH]; intros x sc ov f sc' s2 Hx H; cbn [pyro_leading_fraction] in H.
+  - inversion H; subst. split; [apply is_suffix_refl|exact Hx].
+  - destruct (is_digit c) eqn:Hc.
+    + assert (G : forall x' sc'' ov', 0 <= x' <= max_int64 -> pyro_leading_fraction s x' sc'' ov' = (f, sc', s2) ->
+                  is_suffix s2 (c :: s) /\ 0 <= f <= max_int64).
+      { intros x' sc'' ov' Hx' H'. destruct (IH _ _ _ _ _ _ Hx' H') as [A B]. split; [apply is_suffix_cons, A|exact B]. }
+      destruct ov; [eapply G; eauto|].
+      change (max_int64 / 10) with 922337203685477580 in H.
+      destruct (Z.ltb_spec 922337203685477580 x) as [Hbig|Hsmall]; [eapply G; eauto|].
+      destruct (wrap_check_eq x c ltac:(lia) Hc) as [_ Hok]. cbv zeta in Hok.
+      destruct (wrap64 (x * 10 + Z.of_N c - 48) <? 0) eqn:E; [eapply G; eauto|].
+      destruct (Hok eq_refl) as (H1 & _ & H3). rewrite H1 in H. eapply G; eauto.
+    + inversion H; subst. split; [apply is_suffix_refl|exact Hx].
+Qed.
+
+Lemma span_suffix : forall (p : N -> bool) s a b, span p s = (a, b) -> is_suffix b s /\ s = a ++ b.
+Proof. intros p s a b H. destruct (span_spec _ _ _ _ H) as (-> & _ & _). split; [exists a; reflexivity|reflexivity]. Qed.
+
+Lemma add_check : forall a b, 0 <= a <= max_int64 -> 0 <= b <= max_int64 ->
+  (wrap64 (a + b) <? 0) = (max_int64 <? wrapu64 (a + b)) /\
+  (wrap64 (a + b) <? 0 = false -> wrap64 (a + b) = a + b /\ wrapu64 (a + b) = a + b /\ 0 <= a + b <= max_int64).
+Proof.
+  intros a b Ha Hb.
+  assert (Hu : wrapu64 (a + b) = a + b) by (unfold wrapu64; apply Z.mod_small; unfold two64, max_int64 in *; lia).
+  rewrite Hu. destruct (Z.ltb_spec max_int64 (a + b)) as [Hgt|Hle].
+  - rewrite wrap64_big_neg by (unfold two64, max_int64 in *; lia). split; [reflexivity|discriminate].
+  - rewrite wrap64_id by (unfold two63, max_int64 in *; lia). split; [lia|]. intros _. lia.
+Qed.
+
+(* either the copy reaches an out-of-range float conversion, or both loops return the same *)
+Lemma loops_same : forall fuel s d, no_dMy s -> 0 <= d <= max_int64 ->
+  pyro_loop fuel s d = PImplDefined \/ pyro_loop fuel s d = std_loop_b max_int64 fuel s d.
+Proof.
+  induction fuel as [|fu IH]; intros s d Hn Hd; [right; destruct s; reflexivity|].
+  destruct s as [|c0 s']; [right; reflexivity|]. cbn [pyro_loop std_loop_b].
+  destruct (negb (is_dot_or_digit c0)); [right; reflexivity|].
+  rewrite <- leading_int_same by (unfold max_int64; lia).
+  destruct (pyro_leading_int (c0 :: s') 0) as [[v s1]|] eqn:Eli; [|right; reflexivity].
+  assert (H0r : 0 <= 0 <= max_int64) by (unfold max_int64; lia).
+  destruct (leading_int_suffix _ _ _ _ H0r Eli) as [Hs1 Hv].
+  set (tupP := match s1 with
+               | c1 :: s1' => if N.eqb c1 46 then
+                   let '(f, scale, s2) := pyro_leading_fraction s1' 0 f_one false in (f, scale, s2, negb (length s1' =? length s2)%nat)
+                   else (0, f_one, s1, false)
+               | [] => (0, f_one, s1, false) end).
+  set (tupS := match s1 with
+               | c1 :: s1' => if N.eqb c1 46 then
+                   let '(f, scale, s2) := std_leading_fraction_b max_int64 s1' 0 f_one false in (f, scale, s2, negb (length s1' =? length s2)%nat)
+                   else (0, f_one, s1, false)
+               | [] => (0, f_one, s1, false) end).
+  assert (Htup : tupP = tupS).
+  { unfold tupP, tupS. destruct s1 as [|c1 s1']; [reflexivity|]. destruct (N.eqb c1 46); [|reflexivity].
+    rewrite <- leading_fraction_same by (unfold max_int64; lia). reflexivity. }
+  assert (Hinfo : forall f sc s2 post, tupP = (f, sc, s2, post) -> is_suffix s2 s1 /\ 0 <= f <= max_int64).
+  { unfold tupP. intros f sc s2 post H. destruct s1 as [|c1 s1'].
+    - inversion H; subst. split; [apply is_suffix_refl|unfold max_int64; lia].
+    - destruct (N.eqb c1 46).
+      + destruct (pyro_leading_fraction s1' 0 f_one false) as [[f' sc'] s2'] eqn:Elf. inversion H; subst.
+        destruct (leading_fraction_suffix _ _ _ _ _ _ _ H0r Elf) as [A B].
+        split; [apply is_suffix_cons, A|exact B].
+      + inversion H; subst. split; [apply is_suffix_refl|unfold max_int64; lia]. }
+  rewrite <- Htup. clearbody tupP. clear tupS Htup.
+  destruct tupP as [[[f sc] s2] post]. destruct (Hinfo f sc s2 post eq_refl) as [Hs2 Hf]. clear Hinfo.
+  destruct (negb (negb (length (c0 :: s') =? length s1)%nat) && negb post); [right; reflexivity|].
+  destruct (span (fun c : N => negb (is_dot_or_digit c)) s2) as [u s3] eqn:Esp.
+  destruct (span_suffix _ _ _ _ Esp) as [Hs3 Hs2eq].
+  assert (Hn2 : no_dMy s2) by (eapply no_dMy_suffix; [|exact Hn]; eapply is_suffix_trans; eauto).
+  assert (Hnu : no_dMy u /\ no_dMy s3) by (rewrite Hs2eq in Hn2; apply no_dMy_app_inv; exact Hn2).
+  destruct Hnu as [Hnu Hn3].
+  destruct u as [|cu u']; [right; reflexivity|]. rewrite (pyro_unit_std _ Hnu).
+  destruct (std_unit (cu :: u')) as [unit|] eqn:Eunit; [|right; reflexivity].
+  pose proof (std_unit_pos _ _ Eunit) as Hup.
+  destruct (max_int64 / unit <? v) eqn:Ediv; [right; reflexivity|].
+  assert (Hvu : 0 <= v * unit <= max_int64).
+  { rewrite (div_ltb_mul max_int64 unit v) in Ediv by (unfold max_int64 in *; lia). apply Z.ltb_ge in Ediv. nia. }
+  rewrite (wrap64_id (v * unit)) by (unfold two63, max_int64 in *; lia).
+  assert (Hwu : wrapu64 (v * unit) = v * unit) by (unfold wrapu64; apply Z.mod_small; unfold two64, max_int64 in *; lia).
+  rewrite !Hwu.
+  destruct (0 <? f) eqn:Ef.
+  - set (t := frac_part f unit sc).
+    destruct ((t <? 0) || (two63 <=? t)) eqn:Et; [left; reflexivity|].
+    apply orb_false_iff in Et as [Et1 Et2]. apply Z.ltb_ge in Et1. apply Z.leb_gt in Et2.
+    assert (Et' : (t <? 0) || (two64 <=? t) = false).
+    { apply orb_false_iff; split; [apply Z.ltb_ge; lia|apply Z.leb_gt; unfold two63, two64 in *; lia]. }
+    rewrite Et'.
+    destruct (add_check (v * unit) t Hvu ltac:(unfold two63, max_int64 in *; lia)) as [Heq Hok]. rewrite <- Heq.
+    destruct (wrap64 (v * unit + t) <? 0) eqn:E1; [right; reflexivity|].
+    destruct (Hok eq_refl) as (A & B & C). rewrite A, B.
+    destruct (add_check d (v * unit + t) Hd C) as [Heq2 Hok2]. rewrite <- Heq2.
+    destruct (wrap64 (d + (v * unit + t)) <? 0) eqn:E2; [right; reflexivity|].
+    destruct (Hok2 eq_refl) as (A2 & B2 & C2). rewrite A2, B2. apply IH; auto.
+  - destruct (add_check d (v * unit) Hd Hvu) as [Heq2 Hok2]. rewrite <- Heq2.
+    destruct (wrap64 (d + v * unit) <? 0) eqn:E2; [right; reflexivity|].
+    destruct (Hok2 eq_refl) as (A2 & B2 & C2). rewrite A2, B2. apply IH; auto.
+Qed.
+
+(* the general form of the equivalence: fractions included *)
+Lemma duration_equiv_frac_lemma : forall s, no_dMy s ->
+  std_parse_duration_b max_int64 s = std_parse_duration s ->
+  pyro_parse_duration s <> PImplDefined ->
+  pyro_parse_duration s = std_parse_duration s.
+Proof.
+  intros s0 HdMy Hb Hni. rewrite <- Hb. revert Hni. unfold pyro_parse_duration, std_parse_duration_b.
+  destruct (strip_sign s0) as [neg s] eqn:Es.
+  assert (Hs : no_dMy s).
+  { destruct (strip_sign_sub _ _ _ Es) as [->|[c ->]]; [auto|]. destruct HdMy as (H1 & H2 & H3). unfold no_dMy in *.
+    repeat split; eapply no_byte_tail; eauto. }
+  destruct (beqb s [48%N]); [reflexivity|]. destruct s as [|c s']; [reflexivity|].
+  destruct (loops_same (length (c :: s')) (c :: s') 0 Hs ltac:(unfold max_int64; lia)) as [Himpl|Hsame].
+  - rewrite Himpl. intros H. exfalso. apply H. reflexivity.
+  - rewrite Hsame. intros _.
+    destruct (std_loop_b max_int64 (length (c :: s')) (c :: s') 0) as [d| |] eqn:E; try reflexivity.
+    destruct neg; [reflexivity|].
+    assert (Hd : d <= max_int64).
+    { assert (G : forall fuel sx d0 dx, d0 <= max_int64 -> pyro_loop fuel sx d0 = POk dx -> dx <= max_int64).
+      { induction fuel as [|fu IH]; intros sx d0 dx H0 H; [destruct sx; inversion H; subst; exact H0|].
+        destruct sx as [|cq sq]; [inversion H; subst; exact H0|]. cbn [pyro_loop] in H.
+        destruct (negb (is_dot_or_digit cq)); [discriminate|].
+        destruct (pyro_leading_int (cq :: sq) 0) as [[v s1]|]; [|discriminate].
+        destruct (match s1 with
+                  | c1 :: s1' => if N.eqb c1 46 then
+                      let '(f, scale, s2) := pyro_leading_fraction s1' 0 f_one false in (f, scale, s2, negb (length s1' =? length s2)%nat)
+                      else (0, f_one, s1, false)
+                  | [] => (0, f_one, s1, false) end) as [[[f sc] s2] post].
+        destruct (negb (negb (length (cq :: sq) =? length s1)%nat) && negb post); [discriminate|].
+        destruct (span (fun c : N => negb (is_dot_or_digit c)) s2) as [u s3].
+        destruct u; [discriminate|]. destruct (pyro_unit (n :: u)); [|discriminate].
+        destruct (max_int64 / z <? v); [discriminate|].
+        destruct (0 <? f).
+        - destruct ((frac_part f z sc <? 0) || (two63 <=? frac_part f z sc)); [discriminate|].
+          destruct (wrap64 (wrap64 (v * z) + frac_part f z sc) <? 0); [discriminate|].
+          destruct (wrap64 (d0 + wrap64 (wrap64 (v * z) + frac_part f z sc)) <? 0) eqn:E2; [discriminate|].
+          eapply IH; [|exact H]. pose proof (wrap64_range (d0 + wrap64 (wrap64 (v * z) + frac_part f z sc))).
+          unfold two63, max_int64 in *. lia.
+        - destruct (wrap64 (d0 + wrap64 (v * z)) <? 0) eqn:E2; [discriminate|].
+          eapply IH; [|exact H]. pose proof (wrap64_range (d0 + wrap64 (v * z))). unfold two63, max_int64 in *. lia. }
+      eapply G; [|exact Hsame]. unfold max_int64. lia. }
+    replace (max_int64 <? d) with false by lia. reflexivity.
+Qed.
